@@ -9,6 +9,7 @@ def kind? : List Sexp → Option Kind
   | [.atom "lazyErr", n] => n.nat?.map .lazyErr
   | [.atom "const", n] => n.nat?.map .const
   | [.atom "error", n] => n.nat?.map .error
+  | [.atom "errorNone", _] => some .errorNone
   | [.atom "taskOk", n] => n.nat?.map .taskOk
   | [.atom "taskErr", n] => n.nat?.map .taskErr
   | [.atom "lazySelfSet", n] => n.nat?.map (fun v => .lazySelfSet v (v + 1))
@@ -36,6 +37,7 @@ def op? : Sexp → Option Op
   | .list [.atom "isComputed"] => some .isComputed
   | .list [.atom "setValue", n] => n.nat?.map .setValue
   | .list [.atom "setError", n] => n.nat?.map .setError
+  | .list [.atom "setErrorNone"] => some .setErrorNone
   | .list [.atom "reset"] => some .reset
   | .list (.atom "subscribe" :: n :: b) => do some (.subscribe (← n.nat?) (← beh? b))
   | .list [.atom "unsubscribe", n] => n.nat?.map .unsubscribe
@@ -94,7 +96,7 @@ def handle (id : Nat) (hdr : List Sexp) (body : List Sexp) : String :=
 
 /-! ### mode `futsubs`: notification rounds of futures that are NOT kinds of the one-future model (batch items, batches,
   DebugBatchItem, AsyncTasks that block) - no theorem speaks about how these complete; each round is judged by the
-  same clause `notifiedAll` (the one `C10_spec_holds` / `C10_notify_once_after_visible` are about) plus the plain
+  same clause `notifiedAll` (the one `spec` uses and `C10_spec_holds` is about) plus the plain
   statements "a second set raises FutureIsAlreadyComputed" and "value() / call report the outcome".
 
   (fut) (sub id beh...)* (round outc (cbs) second-set-result read1 read2 expected-outc)*  per watched future  -/
